@@ -199,9 +199,9 @@ Qed.
 
 (* ---- stale marking and next-hop validity keep ids, keys and membership *)
 
-Lemma restale_dest_entries fl' addr net d :
-  d_id (fst (restale_dest fl' addr net d)) = d_id d
-  /\ Permutation (d_entries d) (d_entries (fst (restale_dest fl' addr net d))).
+Lemma restale_dest_entries fl' llgr addr net d :
+  d_id (fst (restale_dest fl' llgr addr net d)) = d_id d
+  /\ Permutation (d_entries d) (d_entries (fst (restale_dest fl' llgr addr net d))).
 Proof.
   unfold restale_dest. destruct (negb (existsb (from_addr addr) (d_entries d))); cbn [fst d_id d_entries with_entries].
   - split; reflexivity.
@@ -625,7 +625,7 @@ Lemma invI_restale t llgr addr : invI t -> invI (fst (restale_op t llgr addr)).
 Proof.
   intro Hinv. destruct (restale_op_dests t llgr addr) as [Ed _]. cbv zeta in Ed.
   destruct (restale_op_rest t llgr addr) as (Eu & Es & _).
-  apply (invI_mp t _ _ (fun n d => proj1 (restale_dest_entries _ addr n d)) Ed Eu Es Hinv).
+  apply (invI_mp t _ _ (fun n d => proj1 (restale_dest_entries _ llgr addr n d)) Ed Eu Es Hinv).
 Qed.
 
 Lemma nhv_op_rest t nh r :
